@@ -341,7 +341,9 @@ def expand(prog: 'object') -> list[str]:
                         if budget <= 0:
                             i += 1
     if log:
+        from kfv import normalize
         for caller in touched.values():
+            normalize._fold(caller.node)      # constants substituted for parameters: getattr(o, f'_{k}') etc. fold now
             renumber(caller.node)
         prog.reindex()  # type: ignore[attr-defined]
     return sorted(set(log))
